@@ -17,6 +17,8 @@ Sigma ==
     [] AlphaName = "docmark" -> {"a", " ", "\n", "-", ".", "{", "[", "%", "#"}
     [] AlphaName = "tab"     -> {"a", " ", "\n", "\t", "-", ":", "?", "[", "#"}
     [] AlphaName = "dir"     -> {"%", "Y", "T", "!", " ", "\n", "1", ".", "-", "a"}
+    [] AlphaName = "flow"    -> {"a", " ", "\n", ",", ":", "[", "]", "{", "}", "?", "\""}
+    [] AlphaName = "keys"    -> {"a", " ", "\n", "?", ":", "-", "&", "*", "'", "|"}
 
 VARIABLES text, p, evs, acc, done, steps
 vars == <<text, p, evs, acc, done, steps>>
